@@ -300,6 +300,14 @@ func c07Variants(r *mrand.Rand, k *c07Key, sig, rnd []byte, other *c07Key, thoro
 			f2 := append(append([]byte{}, f[:len(f)-len(t)]...), t2...)
 			add("rsa-unknown-trailer", signF(f2), rnd, k.spki)
 		}
+		// a correct SHA-1 digest under an unknown xxCC trailer (must not be read as "SHA-1")
+		for _, t2 := range [][]byte{{0x33, 0xCC}, {0x00, 0xCC}, {0x3A, 0xCC}, {0xBC, 0xCC}} {
+			m1u := randBytes(r, kb-1-20-2-(kb-len(f)))
+			fu := append([]byte{0x6A}, m1u...)
+			fu = append(fu, c07Hash(chipsim.AASHA1, append(append([]byte{}, m1u...), rnd...))...)
+			fu = append(fu, t2...)
+			add("rsa-sha1-digest-under-unknown-trailer", signF(fu), rnd, k.spki)
+		}
 		// hash over M1 only / over the challenge only / over another challenge, properly signed
 		hl := len(c07Hash(aa.Hash, nil))
 		mk := func(d []byte) []byte {
